@@ -332,6 +332,42 @@ def check_order(ctx):
             ctx.violate(R, b2[0], "pool.%s used" % other, "results may arrive out of task order", key="unordered:" + other)
 
 
+def check_mutable_defaults(ctx, R):
+    """who-may-keep-state rule over the whole package: a parameter whose default is a mutable container (`{}`, `[]`, `set()`, `dict()`, `list()`) is created once, at
+    definition time - if the function fills it, returns it, stores it or passes it on, what one call put there is seen by every later call"""
+    ctx.rule(R, "no function of the package uses a mutable default argument as storage: a default `{}` / `[]` / `set()` that is written to, returned, stored on an object or "
+                "handed to another function is shared by all calls in the process (results then depend on what was analysed before).")
+    n = 0
+    for mn, q, fn in ctx.prog.all_functions():
+        for f in ctx.prog.modules[mn].all_functions.get(q, [fn]):
+            a = f.args
+            pos = a.posonlyargs + a.args
+            pairs = list(zip(pos[len(pos) - len(a.defaults):], a.defaults)) + [(x, d) for x, d in zip(a.kwonlyargs, a.kw_defaults) if d is not None]
+            for arg, d in pairs:
+                mutable = isinstance(d, (ast.Dict, ast.List, ast.Set)) or (isinstance(d, ast.Call) and (A.call_name(d) or "") in ("dict", "list", "set", "OrderedDict", "defaultdict", "collections.OrderedDict"))
+                if not mutable:
+                    continue
+                n += 1
+                nm = arg.arg
+                rebound = [s_ for s_ in A.walk_local(f) if isinstance(s_, ast.Assign) and any(isinstance(t_, ast.Name) and t_.id == nm for t_ in s_.targets)]
+                ws = A.storage_writes(f, lambda e, nm=nm: isinstance(e, ast.Name) and e.id == nm)
+                escapes = []
+                for x in A.walk_local(f):
+                    if isinstance(x, ast.Return) and x.value is not None and any(isinstance(y, ast.Name) and y.id == nm for y in ast.walk(x.value)):
+                        escapes.append(x)
+                    if isinstance(x, ast.Assign) and any(isinstance(t_, (ast.Attribute, ast.Subscript)) for t_ in x.targets) and isinstance(x.value, ast.Name) and x.value.id == nm:
+                        escapes.append(x)
+                    if isinstance(x, ast.Call) and (any(isinstance(y, ast.Name) and y.id == nm for y in x.args) or any(isinstance(k.value, ast.Name) and k.value.id == nm for k in x.keywords)) \
+                            and (A.call_name(x) or "") not in ("len", "isinstance", "list", "dict", "tuple", "set", "sorted", "enumerate", "zip", "iter", "bool", "str", "repr"):
+                        escapes.append(x)
+                bad = (ws or escapes) and not (rebound and False)
+                site = (ws[0][0] if ws else escapes[0]) if (ws or escapes) else f
+                ctx.check(R, site, "default `%s=%s` of %s is never used as storage" % (nm, A.unparse(d), q), not bad,
+                          "the one object created for the default `%s=%s` is %s (`%s`): it carries state from call to call" % (
+                              nm, A.unparse(d), "written to" if ws else "returned, stored or passed on", A.unparse(site)[:60] if not isinstance(site, ast.FunctionDef) else q), key="mutable-default:%s:%s" % (q, nm))
+    ctx.ok(R, ("thejoker", 1, "thejoker.<package>"), "%d mutable defaults inspected" % n, nontrivial=False)
+
+
 def check_dtype(ctx):
     R = "C05-DTYPE"
     ctx.rule(R, "sibling agreement on precision: the three producers of the packed array - JokerSamples.pack (in memory), read_batch_slice and read_batch_idx (cache) - carry "
@@ -371,6 +407,7 @@ def check_dtype(ctx):
 def run(ctx):
     from .C07 import _Relabel
     check_dtype(ctx)
+    check_mutable_defaults(ctx, "C05-DEFAULTS")
     check_pickle(ctx)
     from .C02 import check_cache
     check_cache(ctx, "C05-CACHE")
@@ -387,6 +424,14 @@ def run(ctx):
         S = _rej.analyze(ctx.prog, mod, name)
         check_site(_Relabel(ctx, {"C06-SPACE": "C05-SPACE", "C06-FIELD": "C05-SPACE", "C06-ALL": "C05-SPACE"}), S)
         check_acc(_Relabel(ctx, {"C02-ACC": "C05-SPACE"}), S)
+        from .C02 import check_trunc
+        check_trunc(_Relabel(ctx, {"C02-TRUNC": "C05-SPACE"}), S)
+    from .C12 import check_unit_refusal, check_refuse, check_dispatch
+    ctx.rule("C05-APPEND", "a cache built chunk by chunk holds what its header says: appends with other (even convertible) units or conflicting column metadata are refused "
+                           "(shared with C12-REFUSE), and every selector kind reads through the same unit conversion (shared with C12-DISPATCH).")
+    check_unit_refusal(_Relabel(ctx, {"C12-REFUSE": "C05-APPEND"}))
+    check_refuse(_Relabel(ctx, {"C12-REFUSE": "C05-APPEND"}))
+    check_dispatch(_Relabel(ctx, {"C12-DISPATCH": "C05-APPEND"}))
     ctx.rule("C05-PART", "batches partition the rows exactly once and in order for every n_batches (shared implementation with C16-P / C16-RUN).")
     from .C16 import check_batch_tasks, check_run_worker
     check_batch_tasks(_Relabel(ctx, {"C16-P": "C05-PART"}))
